@@ -103,12 +103,22 @@ def impl_frac_terms(q, sigma, alpha):
     return cnt[0] // 2
 
 
+class Exc:
+    """an exception raised by the real code, as a value"""
+
+    def __init__(self, e):
+        self.type, self.msg = type(e).__name__, str(e)[:80]
+
+    def __repr__(self):
+        return f"raises {self.type}: {self.msg}"
+
+
 def call(fn, *a, **k):
-    """run real code; exceptions become ('exc', type name)"""
+    """run real code; exceptions become `Exc` values"""
     try:
         return fn(*a, **k)
     except Exception as e:  # noqa
-        return ("exc", type(e).__name__, str(e)[:80])
+        return Exc(e)
 
 
 # --------------------------------------------------------------------------- driver batches
@@ -196,7 +206,7 @@ def true_log_a(q, sigma, alpha):
         ld = -z * z / (2 * s2) + lnorm
         if t > 30:
             lu = lq + t + math.log1p(-math.exp(-t))          # log u
-            w = a * (lu + math.log1p(math.exp(l1q - lq - t) + 0.0) + 0.0) if False else a * (lq + t + math.log1p((1 - q) / q * math.exp(-t)))
+            w = a * (lq + t + math.log1p((1 - q) / q * math.exp(-t)))
             return w, lu, None, ld
         u = q * math.expm1(t)
         return a * math.log1p(u), None, u, ld
@@ -345,9 +355,11 @@ def pld_eps_lower(history, delta, log2_size=18):
         return float(np.sum(tot[m] * (-np.expm1(eps - losses[m]))))
 
     margin = delta * 1e-3 + 1e-11    # FFT round-off / wrapped mass
-    if dlow(0.0) <= delta + margin:
-        return 0.0
-    lo, hi = 0.0, float(losses[-1])
+    # epsilon may be negative (for delta close to 1 the coded conversion does return negative
+    # values, and they are valid): search the whole lattice
+    lo, hi = float(losses[0]), float(losses[-1])
+    if dlow(lo) <= delta + margin:
+        return None
     for _ in range(60):
         mid = 0.5 * (lo + hi)
         if dlow(mid) > delta + margin:
